@@ -42,6 +42,8 @@ harness)
   sed "s|@REPO@|$REPO|" go.mod.tmpl > go.mod && cp "$REPO/go.sum" go.sum
   mkdir -p bin
   go build -tags verif -o bin/harness . > $V/work/harness.log 2>&1 || { echo "HARNESS-FAIL (see work/harness.log)"; cat $V/work/harness.log | head -30; rc=1; }
+  # the same harness under the race detector (C12's child process)
+  if [ -z "${VERIF_NO_RACE:-}" ]; then CGO_ENABLED=1 go build -race -tags verif -o bin/harness-race . >> $V/work/harness.log 2>&1 || { echo "HARNESS-FAIL race build (see work/harness.log)"; rc=1; }; fi
   ;;
 esac
 done
